@@ -181,3 +181,66 @@ Example C03_nonvacuous_filegroup_dir :
   /\ rn_log (build_all false nv_d2 (rn_st (build_all false nv_d1 empty_store))) = [s "//p:l"]
   /\ rn_log (build_all false nv_d2 (rn_st (build_all false nv_d2 (rn_st (build_all false nv_d1 empty_store))))) = [].
 Proof. vm_compute. repeat split. Qed.
+
+(* ------------------------------------------------------------------------------------------ *)
+(* Follow-up of the seeded changes C03/r2-m1..m3 (Model/C03Ext.v, Proof/C03Ext.v): three statements about pieces of the
+   source regenerated by gotrans (Gen/C03Incr.v).  Each is proved for ALL histories / schedules / iteration orders. *)
+From Coq Require Import Permutation.
+From PlzV Require Gen.C03Incr Model.C03Ext Proof.C03Ext.
+
+(* A filegroup of a plain source file (its output is a hard link to the user's file), a consumer of the filegroup, any
+   history of edits in place (same inode), replacements (new inode), rm -rf plz-out and builds in fresh processes: at every
+   build the consumer's source hash is taken over the CURRENT content, and its command runs exactly when that content is
+   not the one of the previous build (or plz-out was deleted since) - no run on an unchanged tree, a run after every change.
+   same_copy is read off filegroupBuilder.Build: the "same file, nothing to do" way out tells the hasher not to trust the
+   xattr of the shared inode. *)
+Theorem C03_link_exact :
+  forall c0 evs, C03Ext.lrun C03Ext.same_copy (C03Ext.linit c0) evs = C03Ext.spec_runs c0 None evs.
+Proof. exact C03Ext.link_runs_exact. Qed.
+Print Assumptions C03_link_exact.
+
+(* non-vacuity / the mark is needed: build, build again in a new process, edit in place, build - without the mark the last
+   build does not run the consumer (the demo of seeded/C03/r2-m1) *)
+Example C03_link_nonvacuous :
+  let evs := [C03Ext.Build; C03Ext.Build; C03Ext.EditInPlace (s "two"); C03Ext.Build; C03Ext.Replace (s "three"); C03Ext.Build; C03Ext.Build] in
+  map snd (C03Ext.lrun C03Ext.same_copy (C03Ext.linit (s "one")) evs) = [true; false; true; true; false]
+  /\ map snd (C03Ext.lrun false (C03Ext.linit (s "one")) evs) = [true; false; false; true; false].
+Proof. vm_compute. split; reflexivity. Qed.
+
+(* Any number of concurrent `plz build` of the same target, each running the program read off buildTarget (lock,
+   needsBuilding, build, deferred unlock), under EVERY schedule: the command runs at most once, not at all when the target
+   was up to date, and exactly once by the time any process is done with an out-of-date target. *)
+Theorem C03_concurrent_once :
+  forall b0 sched,
+    let st := C03Ext.crun (C03Ext.cinit C03Incr.build_target_program b0) sched in
+    C03Ext.c_count st <= 1
+    /\ (b0 = true -> C03Ext.c_count st = 0)
+    /\ (forall i, C03Ext.p_rest (C03Ext.c_procs st i) = [] ->
+          C03Ext.c_built st = true /\ C03Ext.c_count st = if b0 then 0 else 1).
+Proof. exact C03Ext.conc_runs_once. Qed.
+Print Assumptions C03_concurrent_once.
+
+(* non-vacuity: three processes under the fair schedule all finish, the command ran once; with needsBuilding asked
+   before the lock (and not again) two processes run it twice (the demo of seeded/C03/r2-m2) *)
+Example C03_concurrent_nonvacuous :
+  (forall i, i < 3 -> C03Ext.p_rest (C03Ext.c_procs (C03Ext.crun (C03Ext.cinit C03Incr.build_target_program false) (C03Ext.round_robin 3)) i) = [])
+  /\ C03Ext.c_count (C03Ext.crun (C03Ext.cinit C03Incr.build_target_program false) (C03Ext.round_robin 3)) = 1
+  /\ C03Ext.c_count (C03Ext.crun (C03Ext.cinit [C03Incr.PCheck; C03Incr.PLock; C03Incr.PBuild; C03Incr.PUnlock] false) [0; 1; 0; 0; 0; 1; 1; 1]) = 2.
+Proof. split; [exact C03Ext.round_robin_finishes_3|split; reflexivity]. Qed.
+
+(* The named outputs of a target (outs = {name: [...]}) enter the rule hash in the order the loop of ruleHash visits
+   them; whatever order the Go map is iterated in (m' any permutation of the map m), the same bytes are written: the rule
+   hash is a function of the definition, and a no-op build in another process computes the recorded one. *)
+Theorem C03_named_outs_order :
+  forall m m', NoDup (map fst m) -> Permutation m m' ->
+    C03Ext.named_stream C03Incr.named_outs_iteration m' = C03Ext.named_stream C03Incr.named_outs_iteration m.
+Proof. exact C03Ext.named_order_independent. Qed.
+Print Assumptions C03_named_outs_order.
+
+(* non-vacuity: two groups, the two orders; ranging over the map itself would write other bytes (seeded/C03/r2-m3) *)
+Example C03_named_outs_nonvacuous :
+  let m := [(s "hdrs", [s "m.h"]); (s "srcs", [s "m.c"])] in
+  NoDup (map fst m) /\ Permutation m (rev m)
+  /\ C03Ext.named_stream C03Incr.ItMapRange (rev m) <> C03Ext.named_stream C03Incr.ItMapRange m
+  /\ C03Ext.named_stream C03Incr.ItSortedNames (rev m) = C03Ext.named_stream C03Incr.ItSortedNames m.
+Proof. exact C03Ext.named_map_range_depends_on_order. Qed.
